@@ -134,6 +134,10 @@ class Sym:
         self.depth = 0
         self.trace = []
         self.recursion_guard = False
+        # hook: further outcomes of a call the evaluator does not enter (a rule may say: this callee can also throw, leaving
+        # such and such state behind); receives a private copy of the state, returns the states of the extra outcomes
+        self.opaque_outcomes = None
+        self.apply_functors = False     # std::for_each(first, last, f): evaluate one arbitrary application of f
         self.summarise_recursion = True
         self._loop_cache = {}
         self.active = []
@@ -463,10 +467,46 @@ class Sym:
             return [(st, 'continue')]
         if k == 'switch':
             return self.exec_switch(s, st)
-        if k in ('do', 'try', 'otherstmt', 'case', 'default'):
+        if k == 'try':
+            out = []
+            for s1, sig in self.exec(s['b'], st):
+                thrown = s1.throw
+                if thrown is None:
+                    out.append((s1, sig))
+                    continue
+                h = next((h for h in s.get('handlers', []) if self.catches(h.get('t', '...'), thrown)), None)
+                if h is None:
+                    out.append((s1, sig))
+                    continue
+                s1.throw = None
+                if h.get('var'):
+                    s1.env[('v', h['var']['id'])] = ('sym', 'exception:' + thrown)
+                    s1.env[('n', h['var']['name'])] = ('sym', 'exception:' + thrown)
+                for s2, sig2 in self.exec(h['b'], s1):
+                    if s2.throw == 'rethrow':
+                        s2.throw = thrown
+                    out.append((s2, sig2))
+            return out
+        if k in ('do', 'otherstmt', 'case', 'default'):
             raise Unsupported(f'statement {k} at line {s.get("ln")}')
         # expression statement
         return [(s1, None) for s1, _v in self.ev(s, st)]
+
+    _STD_LOGIC = ('std::logic_error', 'std::domain_error', 'std::invalid_argument', 'std::length_error', 'std::out_of_range')
+    _STD_RUNTIME = ('std::runtime_error', 'std::range_error', 'std::overflow_error', 'std::underflow_error', 'std::system_error')
+
+    def catches(self, htype, thrown):
+        """does a handler for `htype` catch an exception of type `thrown`?"""
+        h = (htype or '...').replace('const ', '').rstrip('& ').strip()
+        t = (thrown or '').replace('const ', '').strip()
+        if h == '...' or h == t or h == 'std::exception':
+            return True
+        if h == 'std::logic_error' and t in self._STD_LOGIC:
+            return True
+        if h == 'std::runtime_error' and t in self._STD_RUNTIME:
+            return True
+        t2 = t.replace('(anonymous namespace)', '(anon)')
+        return t2 in self.F.rec and h in self.F.ancestors(t2)
 
     def leave_scope(self, declared, states):
         """Run the user-provided destructors of the block's local objects (reverse order of declaration) on every
@@ -1608,7 +1648,8 @@ class Sym:
                         or (e[0] == 'call' and e[2] == recv and _is_mutator(e[1])))
                 if n:
                     t = ('after', n, t)
-            return [(st, t)]
+            extra = self.opaque_outcomes(target, recv, args, st.fork()) if self.opaque_outcomes else []
+            return [(st, t)] + [(s2, None) for s2 in extra]
         # implicit/defaulted assignment operator: store
         if name == 'operator=' and f.get('implicit'):
             return [(st, recv)]
@@ -1765,6 +1806,20 @@ class Sym:
         assign_ops = ('operator=',)
         if callee.get('repo') is False:
             pt = callee.get('ptargs') or []
+            if self.apply_functors and name == 'for_each' and recv is None and len(args) == 3 \
+                    and isinstance(args[2], tuple) and args[2][:1] == ('obj',) and args[2][1] in st.heap:
+                # one arbitrary iteration: the functor is not applied at all, or applied to some element of the range (what holds
+                # after either outcome for every starting state holds after any number of iterations)
+                fcls = st.heap[args[2][1]].cls
+                ops = [f for f in self.F.fns_in(fcls) if f['name'] == 'operator()' and len(f['params']) == 1 and f.get('body')]
+                outs = [(st.fork(), args[2])]
+                r = self.whole_range(args[0], args[1])
+                elem = ('elem', r if r is not None else ('range', args[0], args[1]))
+                for op in ops:
+                    caps = st.heap[args[2][1]].tag if op.get('lambda_call') else None
+                    for s2, _v in self.call_body(op, args[2], [elem], st.fork(), captures=caps):
+                        outs.append((s2, args[2]))
+                return outs
             if name in ('emplace_front', 'emplace_back', 'emplace_after') and pt:
                 T = pt[0]
                 if T in self.F.rec:
